@@ -42,7 +42,7 @@ type engine struct {
 }
 
 var engines = []engine{
-	{Name: "store-sim", Pkg: "./harness/store", Kind: "real storage/writer/reader/query code over simulated disk; histories, restarts, kills, I/O errors", Props: []string{"C01", "C03", "C04", "C05", "C12"}},
+	{Name: "store-sim", Pkg: "./harness/store", Kind: "real storage/writer/reader/query code over simulated disk; histories, restarts, kills, I/O errors", Props: []string{"C01", "C03", "C04", "C05", "C12", "C26"}},
 	{Name: "merge-sim", Pkg: "./harness/merge", Kind: "real MergeDatabases over a read-only source disk and a destination disk; generated database pairs; kills at every mutating operation", Props: []string{"C24", "C25"}},
 }
 
@@ -65,6 +65,7 @@ var propCfgs = map[string]propCfg{
 	"C12": {Level: "exploration", Quick: tierCfg{Runs: 4000, BudgetS: 35, MinS: 30}, Thorough: tierCfg{Runs: 400000, BudgetS: 600, MinS: 120}},
 	"C24": {Level: "exploration", Quick: tierCfg{Runs: 4000, BudgetS: 35, MinS: 30}, Thorough: tierCfg{Runs: 400000, BudgetS: 600, MinS: 120}},
 	"C25": {Level: "fault_enumeration", Quick: tierCfg{Runs: 4000, BudgetS: 35, MinS: 30}, Thorough: tierCfg{Runs: 400000, BudgetS: 600, MinS: 120}},
+	"C26": {Level: "exploration", Quick: tierCfg{Runs: 4000, BudgetS: 35, MinS: 30}, Thorough: tierCfg{Runs: 400000, BudgetS: 600, MinS: 120}},
 	"C05": {Level: "fault_enumeration", Quick: tierCfg{Runs: 96, BudgetS: 35, MinS: 30}, Thorough: tierCfg{Runs: 4000, BudgetS: 600, MinS: 120}},
 }
 
